@@ -9,7 +9,9 @@ use std::collections::HashMap;
 use std::fmt::Write as _;
 use std::path::{Path, PathBuf};
 
-pub const IFACE_VARIANTS: usize = 10;
+pub const IFACE_VARIANTS: usize = 15;
+/// pairs of variants that differ only in the ORDER of fields / enum variants / trait methods / parameters
+pub const ORDER_PAIRS: &[(usize, usize)] = &[(2, 10), (3, 11), (4, 12), (13, 14)];
 
 /// source text of package `pkg`; `iv` selects the dependent-visible part, `bv` the bodies
 pub fn source(pkg: &str, imports: &[&str], iv: usize, bv: usize) -> String {
@@ -27,20 +29,33 @@ pub fn source(pkg: &str, imports: &[&str], iv: usize, bv: usize) -> String {
     match iv {
         1 => writeln!(s, "fn spare(x: int32, y: int32) -> int32 {{ x + y + {} }}", bv).unwrap(),
         7 => {}
+        // 13 / 14: the same parameter types in the other order
+        13 => writeln!(s, "fn spare(x: int32, y: bool) -> int32 {{ if y {{ x + {} }} else {{ x }} }}", bv).unwrap(),
+        14 => writeln!(s, "fn spare(x: bool, y: int32) -> int32 {{ if x {{ y + {} }} else {{ y }} }}", bv).unwrap(),
         8 => writeln!(s, "fn spare(x: int32) -> bool {{ x > {} }}", bv).unwrap(),
         _ => writeln!(s, "fn spare(x: int32) -> int32 {{ x + {} }}", bv).unwrap(),
     }
     if iv == 2 {
         writeln!(s, "struct SpareS {{ a: int32, b: bool }}").unwrap();
+    } else if iv == 10 {
+        // the fields of variant 2 in the other order (Core addresses fields by position)
+        writeln!(s, "struct SpareS {{ b: bool, a: int32 }}").unwrap();
     } else {
         writeln!(s, "struct SpareS {{ a: int32 }}").unwrap();
     }
     if iv == 3 {
         writeln!(s, "enum SpareE {{ V0, V1(int32) }}").unwrap();
+    } else if iv == 11 {
+        // the variants of variant 3 in the other order (the constructor index is the position)
+        writeln!(s, "enum SpareE {{ V1(int32), V0 }}").unwrap();
     } else {
         writeln!(s, "enum SpareE {{ V0 }}").unwrap();
     }
-    if iv == 4 {
+    if iv == 12 {
+        // the methods of variant 4 in the other order (vtable slots are positional)
+        writeln!(s, "trait SpareT {{ fn k(Self) -> bool; fn m(Self) -> int32; }}").unwrap();
+        writeln!(s, "impl SpareT for SpareS {{ fn m(self: SpareS) -> int32 {{ {} }} fn k(self: SpareS) -> bool {{ true }} }}", bv).unwrap();
+    } else if iv == 4 {
         writeln!(s, "trait SpareT {{ fn m(Self) -> int32; fn k(Self) -> bool; }}").unwrap();
         writeln!(s, "impl SpareT for SpareS {{ fn m(self: SpareS) -> int32 {{ {} }} fn k(self: SpareS) -> bool {{ true }} }}", bv).unwrap();
     } else {
@@ -572,6 +587,24 @@ pub fn main(args: &util::Args) {
             tagged("link", vec![a("Main"), a("Bb"), a("Aa")]),
         ];
         run_history(&format!("cat:variant:{}", v), g, &ops, &dir.join("w"), &mut out);
+    }
+    // order-only edits: a dependent built against one order must not link with the other
+    for (x, y) in ORDER_PAIRS.iter().flat_map(|(x, y)| [(*x, *y), (*y, *x)]) {
+        let ops = vec![
+            tagged("edit-iface", vec![a("Aa"), n(x)]),
+            tagged("build", vec![a("Aa")]),
+            tagged("build", vec![a("Bb")]),
+            tagged("build", vec![a("Main")]),
+            tagged("link", vec![a("Main"), a("Bb"), a("Aa")]),
+            tagged("edit-iface", vec![a("Aa"), n(y)]),
+            tagged("build", vec![a("Aa")]),
+            tagged("link", vec![a("Main"), a("Bb"), a("Aa")]),
+            tagged("build", vec![a("Bb")]),
+            tagged("link", vec![a("Main"), a("Bb"), a("Aa")]),
+            tagged("build", vec![a("Main")]),
+            tagged("link", vec![a("Main"), a("Bb"), a("Aa")]),
+        ];
+        run_history(&format!("cat:order:{}:{}", x, y), g, &ops, &dir.join("w"), &mut out);
     }
     let _ = std::fs::create_dir_all(&args.out);
     std::fs::write(args.out.join("c15.cases.tsv"), out).unwrap();
